@@ -215,6 +215,88 @@ func runC16(p *core.Program, r *core.Report) {
 		}
 	}
 	c16Paths(p, r)
+	c16LiveLimits(p, r)
+}
+
+// c16LiveLimits: the limits ApplyConfig may change while the sender runs are read where they are
+// used. No method copies such a field into a local before a loop and then uses the copy inside the
+// loop: the background loop would go on with the value from before the configuration change.
+func c16LiveLimits(p *core.Program, r *core.Report) {
+	ac := zipMethod(p, "ApplyConfig")
+	if ac == nil || ac.Decl.Body == nil {
+		return
+	}
+	live := map[types.Object]bool{}
+	ainfo := ac.Pkg.TypesInfo
+	arn := recvName(ac)
+	ast.Inspect(ac.Decl.Body, func(n ast.Node) bool {
+		if as, ok := n.(*ast.AssignStmt); ok {
+			for _, l := range as.Lhs {
+				if sel, ok := ast.Unparen(l).(*ast.SelectorExpr); ok {
+					if id, ok := ast.Unparen(sel.X).(*ast.Ident); ok && id.Name == arn {
+						if f, ok := ainfo.ObjectOf(sel.Sel).(*types.Var); ok && f.IsField() {
+							live[f] = true
+						}
+					}
+				}
+			}
+		}
+		return true
+	})
+	if len(live) == 0 {
+		return
+	}
+	t := core.RecvNamed(ac.Obj)
+	for _, fi := range p.MethodsOf(t) {
+		if fi.Decl.Body == nil || fi == ac {
+			continue
+		}
+		info := fi.Pkg.TypesInfo
+		loops := 0
+		var probs []string
+		ast.Inspect(fi.Decl.Body, func(n ast.Node) bool {
+			loop, ok := n.(*ast.ForStmt)
+			if !ok {
+				return true
+			}
+			// the background loops only (for {} / for true {}): a bounded loop over one call's
+			// records may well work with the limit it started with
+			if loop.Cond != nil {
+				if tv, ok := info.Types[loop.Cond]; !ok || tv.Value == nil {
+					return true
+				}
+			}
+			loops++
+			// locals used in the loop that were defined before it from a live limit
+			ast.Inspect(loop.Body, func(m ast.Node) bool {
+				id, ok := m.(*ast.Ident)
+				if !ok {
+					return true
+				}
+				v, ok := info.Uses[id].(*types.Var)
+				if !ok || v.IsField() || v.Pos() >= loop.Pos() || v.Pos() < fi.Decl.Body.Pos() {
+					return true
+				}
+				d := localDefIn(info, fi.Decl.Body, id)
+				if d == nil || d.Pos() >= loop.Pos() {
+					return true
+				}
+				ast.Inspect(d, func(k ast.Node) bool {
+					if sel, ok := k.(*ast.SelectorExpr); ok {
+						if f, ok := info.ObjectOf(sel.Sel).(*types.Var); ok && live[f] {
+							probs = append(probs, fmt.Sprintf("%s is copied from %s before the loop at %s and used inside it: a later ApplyConfig does not reach the loop", id.Name, f.Name(), p.Pos(loop.Pos())))
+						}
+					}
+					return true
+				})
+				return true
+			})
+			return true
+		})
+		if loops > 0 {
+			fileProbs(r, "C16.triggers", core.FuncName(fi.Obj)+" live limits", p.Pos(fi.Decl.Pos()), uniq(probs), "limits are read inside the loop that uses them")
+		}
+	}
 }
 
 func c16Defaults(p *core.Program, r *core.Report) {
